@@ -10,6 +10,7 @@ package ledger
 
 //@ ghost allocated arr[Store]bool
 //@ ghost open arr[Store]bool
+//@ ghost closed arr[Store]bool
 //@ ghost writes arr[Store]int
 //@ ghost logs arr[Store]int
 //@ ghost fnRuns arr[Store]int
@@ -28,22 +29,23 @@ package ledger
 // ---- assumed contracts of the Store interface (implemented by internal/storage/ledger over Postgres) ----
 
 //@ assumed func (s Store) BeginTX(ctx context.Context, options *sql.TxOptions) (r Store, tx *bun.Tx, err error)
+//@   requires !closed[s]
 //@   modifies allocated, open, nBegin
 //@   ensures err != nil ==> allocated == old(allocated) && open == old(open) && nBegin == old(nBegin)
 //@   ensures err == nil ==> r != nil && !old(allocated)[r] && allocated == store(old(allocated), r, true)
 //@   ensures err == nil ==> open == store(old(open), r, true) && nBegin == old(nBegin) + 1
-//@   ensures err == nil ==> logs[r] == 0 && fnRuns[r] == 0 && writes[r] == 0
+//@   ensures err == nil ==> logs[r] == 0 && fnRuns[r] == 0 && writes[r] == 0 && !closed[r]
 
 //@ assumed func (s Store) Commit(ctx context.Context) (err error)
 //@   requires open[s]
-//@   modifies open, nClosed, nCommit, committedLogs, committedFnRuns
-//@   ensures open == store(old(open), s, false) && nClosed == old(nClosed) + 1
+//@   modifies open, closed, nClosed, nCommit, committedLogs, committedFnRuns
+//@   ensures open == store(old(open), s, false) && nClosed == old(nClosed) + 1 && closed == store(old(closed), s, true)
 //@   ensures err == nil ==> nCommit == old(nCommit) + 1 && committedLogs == old(committedLogs) + logs[s] && committedFnRuns == old(committedFnRuns) + fnRuns[s]
 //@   ensures err != nil ==> nCommit == old(nCommit) && committedLogs == old(committedLogs) && committedFnRuns == old(committedFnRuns)
 
 //@ assumed func (s Store) Rollback(ctx context.Context) (err error)
-//@   modifies open, nClosed
-//@   ensures open == store(old(open), s, false)
+//@   modifies open, closed, nClosed
+//@   ensures open == store(old(open), s, false) && closed == store(old(closed), s, old(open)[s] || old(closed)[s])
 //@   ensures nClosed == old(nClosed) + (old(open)[s] ? 1 : 0)
 
 //@ assumed func (s Store) InsertLog(ctx context.Context, log *ledger.Log) (err error)
@@ -115,7 +117,8 @@ package ledger
 //@   ensures output != nil ==> log != nil && err == nil && log.IdempotencyKey == parameters.IdempotencyKey
 
 //@ func (lp *logProcessor[INPUT, OUTPUT]) runLog(ctx context.Context, store Store, parameters Parameters[INPUT], fn func(ctx context.Context, sqlTX Store, schema *ledger.Schema, parameters Parameters[INPUT]) (*OUTPUT, error)) (log *ledger.Log, output *OUTPUT, err error)
-//@   property C07 C08 C13 C29
+//@   property C07 C08 C13 C29 C31
+//@   requires !closed[store]
 //@   modifies writes, logs, fnRuns
 //@   ensures forall h Store :: {writes[h]} h != store ==> writes[h] == old(writes)[h]
 //@   ensures forall h Store :: {logs[h]} h != store ==> logs[h] == old(logs)[h]
@@ -132,11 +135,12 @@ package ledger
 //@     ensures ferr == nil ==> out != nil
 
 //@ func (lp *logProcessor[INPUT, OUTPUT]) runTx(ctx context.Context, store Store, parameters Parameters[INPUT], fn func(ctx context.Context, sqlTX Store, schema *ledger.Schema, parameters Parameters[INPUT]) (*OUTPUT, error)) (log *ledger.Log, output *OUTPUT, err error)
-//@   property C07 C08 C13
-//@   requires allocated[store]
-//@   modifies allocated, open, nBegin, nClosed, nCommit, committedLogs, committedFnRuns, writes, logs, fnRuns
+//@   property C07 C08 C13 C31
+//@   requires allocated[store] && !closed[store]
+//@   modifies allocated, open, closed, nBegin, nClosed, nCommit, committedLogs, committedFnRuns, writes, logs, fnRuns
 //@   ensures nBegin - old(nBegin) == nClosed - old(nClosed)
 //@   ensures forall h Store :: {writes[h]} old(allocated)[h] ==> writes[h] == old(writes)[h]
+//@   ensures forall h Store :: {closed[h]} old(allocated)[h] ==> closed[h] == old(closed)[h]
 //@   ensures forall h Store :: {open[h]} old(allocated)[h] ==> open[h] == old(open)[h]
 //@   ensures forall h Store :: {allocated[h]} old(allocated)[h] ==> allocated[h]
 //@   ensures err != nil || parameters.DryRun ==> nCommit == old(nCommit) && committedLogs == old(committedLogs) && committedFnRuns == old(committedFnRuns)
@@ -149,11 +153,12 @@ package ledger
 //@     ensures ferr == nil ==> out != nil
 
 //@ func (lp *logProcessor[INPUT, OUTPUT]) forgeLogRetry(ctx context.Context, store Store, parameters Parameters[INPUT], fn func(ctx context.Context, store Store, schema *ledger.Schema, parameters Parameters[INPUT]) (*OUTPUT, error)) (log *ledger.Log, output *OUTPUT, hit bool, err error)
-//@   property C07 C08 C13
-//@   requires allocated[store]
-//@   modifies allocated, open, nBegin, nClosed, nCommit, committedLogs, committedFnRuns, writes, logs, fnRuns
+//@   property C07 C08 C13 C31
+//@   requires allocated[store] && !closed[store]
+//@   modifies allocated, open, closed, nBegin, nClosed, nCommit, committedLogs, committedFnRuns, writes, logs, fnRuns
 //@   ensures nBegin - old(nBegin) == nClosed - old(nClosed)
 //@   ensures forall h Store :: {writes[h]} old(allocated)[h] ==> writes[h] == old(writes)[h]
+//@   ensures forall h Store :: {closed[h]} old(allocated)[h] ==> closed[h] == old(closed)[h]
 //@   ensures forall h Store :: {open[h]} old(allocated)[h] ==> open[h] == old(open)[h]
 //@   ensures forall h Store :: {allocated[h]} old(allocated)[h] ==> allocated[h]
 //@   ensures err != nil || parameters.DryRun || hit ==> nCommit == old(nCommit) && committedLogs == old(committedLogs) && committedFnRuns == old(committedFnRuns)
@@ -166,6 +171,7 @@ package ledger
 //@     invariant nCommit == old(nCommit) && committedLogs == old(committedLogs) && committedFnRuns == old(committedFnRuns)
 //@     invariant forall h Store :: {writes[h]} old(allocated)[h] ==> writes[h] == old(writes)[h]
 //@     invariant forall h Store :: {open[h]} old(allocated)[h] ==> open[h] == old(open)[h]
+//@     invariant forall h Store :: {closed[h]} old(allocated)[h] ==> closed[h] == old(closed)[h]
 //@     invariant forall h Store :: {allocated[h]} old(allocated)[h] ==> allocated[h]
 //@   fnparam fn(c, sqlTX, schema, params) (out, ferr):
 //@     modifies writes, fnRuns
@@ -174,11 +180,12 @@ package ledger
 //@     ensures ferr == nil ==> out != nil
 
 //@ func (lp *logProcessor[INPUT, OUTPUT]) forgeLog(ctx context.Context, store Store, parameters Parameters[INPUT], fn func(ctx context.Context, store Store, schema *ledger.Schema, parameters Parameters[INPUT]) (*OUTPUT, error)) (log *ledger.Log, output *OUTPUT, hit bool, err error)
-//@   property C07 C08 C13
-//@   requires allocated[store]
-//@   modifies allocated, open, nBegin, nClosed, nCommit, committedLogs, committedFnRuns, writes, logs, fnRuns
+//@   property C07 C08 C13 C31
+//@   requires allocated[store] && !closed[store]
+//@   modifies allocated, open, closed, nBegin, nClosed, nCommit, committedLogs, committedFnRuns, writes, logs, fnRuns
 //@   ensures nBegin - old(nBegin) == nClosed - old(nClosed)
 //@   ensures forall h Store :: {writes[h]} old(allocated)[h] ==> writes[h] == old(writes)[h]
+//@   ensures forall h Store :: {closed[h]} old(allocated)[h] ==> closed[h] == old(closed)[h]
 //@   ensures forall h Store :: {open[h]} old(allocated)[h] ==> open[h] == old(open)[h]
 //@   ensures err != nil || parameters.DryRun || hit ==> nCommit == old(nCommit) && committedLogs == old(committedLogs) && committedFnRuns == old(committedFnRuns)
 //@   ensures err == nil && !parameters.DryRun && !hit ==> nCommit == old(nCommit) + 1 && committedLogs == old(committedLogs) + 1 && committedFnRuns == old(committedFnRuns) + 1
@@ -270,6 +277,11 @@ package ledger
 // inside an open SQL transaction": then no callback runs before the transaction commits.
 
 //@ ghost published int
+//@ ghost nCtrlCommit int
+
+//@ assumed func (c Controller) Commit(ctx context.Context) (err error)
+//@   modifies nCtrlCommit
+//@   ensures nCtrlCommit == old(nCtrlCommit) + (err == nil ? 1 : 0)
 
 //@ func (c *ControllerWithEvents) handleEvent(ctx context.Context, fn func())
 //@   property C31
@@ -344,12 +356,13 @@ package ledger
 
 //@ func (c *ControllerWithEvents) Commit(ctx context.Context) (err error)
 //@   property C31
-//@   modifies published
+//@   modifies published, nCtrlCommit
+//@   ensures (err == nil) == (nCtrlCommit == old(nCtrlCommit) + 1) && (err != nil) == (nCtrlCommit == old(nCtrlCommit))
 //@   ensures err != nil ==> published == old(published)
 //@   ensures err == nil ==> published == old(published) + len(c.atCommit)
 //@   loop 1:
 //@     index k
-//@     invariant published == old(published) + k
+//@     invariant published == old(published) + k && nCtrlCommit == old(nCtrlCommit) + 1
 //@   fnparam f() ():
 //@     modifies published
 //@     ensures published == old(published) + 1
